@@ -183,6 +183,8 @@ pub struct Core {
     pub total: usize,
     /// signal slots swapped in place for the previous answer (to be swapped back)
     pub swapped: Option<(usize, usize)>,
+    /// a signal the test does not know (see DriverSpec::foreign)
+    pub foreign: Signal,
 }
 
 impl Core {
@@ -196,7 +198,7 @@ impl Core {
                 t
             })
             .collect();
-        Core { spec, signals, rewidthed, log: Rc::new(RefCell::new(vec![])), reads: 0, total: 0, swapped: None }
+        Core { spec, signals, rewidthed, log: Rc::new(RefCell::new(vec![])), reads: 0, total: 0, swapped: None, foreign: Signal::output("ZZforeign", 8) }
     }
 
     fn record(&mut self, read: bool, inputs: &[InputEntry<'_>]) -> usize {
@@ -247,6 +249,7 @@ impl Core {
                         ans[p % n] = (*s, false, self.spec.answer(c, *s));
                     }
                     Deviation::Rewidth(p) => ans[p % n].1 = true,
+                    Deviation::ForeignReplaced(_) => {}
                     Deviation::SwapInPlace(p, q) => {
                         let (a, b) = (ans[p % n].0, ans[q % n].0);
                         if a != b {
@@ -264,13 +267,25 @@ impl Core {
             _ => s,
         };
         self.log.borrow_mut()[li].answer = ans.iter().map(|(s, _, v)| (ident(*s), *v)).collect();
-        Ok(ans
+        let mut result: Vec<OutputEntry<'_>> = ans
             .into_iter()
             .map(|(s, rw, v)| OutputEntry {
                 signal: if rw { &self.rewidthed[s] } else { &self.signals[s] },
                 value: to_outputvalue(v),
             })
-            .collect())
+            .collect();
+        if self.spec.foreign {
+            match &self.spec.deviate_at {
+                Some((at, Deviation::ForeignReplaced(s))) if *at == c => {
+                    let v = self.spec.answer(c, *s);
+                    self.log.borrow_mut()[li].answer.push((*s, v));
+                    result.push(OutputEntry { signal: &self.signals[*s], value: to_outputvalue(v) });
+                }
+                // (the unknown signal is not logged: no entry of the test can refer to it)
+                _ => result.push(OutputEntry { signal: &self.foreign, value: OutputValue::Value(77) }),
+            }
+        }
+        Ok(result)
     }
 
     fn do_write(&mut self, inputs: &[InputEntry<'_>]) -> Result<(), DriverError> {
